@@ -110,10 +110,18 @@ def child_history(steps):
         cspec, seq = step[0], step[1]
         circ = step[2] if len(step) > 2 else True
         cls = classes.build(cspec)
+        plain = len(step) > 4 and step[4] == "plain"
+
+        def mk():
+            if plain:       # a plain SeqRecord without any topology annotation (read from FASTA): circular by default
+                from Bio.Seq import Seq
+                from Bio.SeqRecord import SeqRecord
+                return SeqRecord(Seq(seq), id="rec", name="rec")
+            return record(seq, circular=circ)
         if len(step) > 3 and step[3]:       # the very same record object as in the earlier steps (their wrappers are still alive)
-            rec = shared.setdefault((seq, circ), record(seq, circular=circ))
+            rec = shared.setdefault((seq, circ, plain), mk())
         else:
-            rec = record(seq, circular=circ)
+            rec = mk()
         res = query(cls, rec)
         d = classes.describe(cls)
         rx = cls.__dict__.get("_regex")
@@ -122,7 +130,7 @@ def child_history(steps):
         slots = sorted(n for n, k in all_specs.items() if k.__dict__.get("_regex") is not None)
         # every class of the kit modules holding a slot (not only those asked) would be better: collect them
         evs.append({"ev": "Validate", "cls": {"name": d["name"], "role": d["role"], "toks": d["toks"], "enz": d["enz"]},
-                    "cached": cached, "slots": slots_all(), "seq": dna.enc(seq), "circ": circ, "res": res})
+                    "cached": cached, "slots": slots_all(), "seq": dna.enc(seq), "circ": circ, "plain": bool(plain), "res": res})
     return evs
 
 
@@ -141,15 +149,19 @@ def slots_all():
     return sorted(out)
 
 
-def one_query(cspec, seq, circ=True):
+def one_query(cspec, seq, circ=True, plain=False):
+    if plain:
+        from Bio.Seq import Seq
+        from Bio.SeqRecord import SeqRecord
+        return query(classes.build(cspec), SeqRecord(Seq(seq), id="rec", name="rec"))
     return query(classes.build(cspec), record(seq, circular=circ))
 
 
 _server = [None]
 
 
-def fresh_answer(cspec, seq, circ=True):
-    return _server[0].call("harness.props.c06", "one_query", cspec, seq, circ)
+def fresh_answer(cspec, seq, circ=True, plain=False):
+    return _server[0].call("harness.props.c06", "one_query", cspec, seq, circ, plain)
 
 
 def run_history(h):
@@ -200,6 +212,22 @@ def run(tier, seed):
             own = gen.instantiate(st, rng, runlen=rng.randint(2, 6)) + gen.rnd(rng.randint(2, 9), rng)
             histories.append([(sib, rec), (sp, rec), (sp, own), (sib, own)])
             histories.append([(sp, rec), (sib, rec), (sib, own), (sp, own)])
+    # one plain SeqRecord object (no topology annotation) shown to one class after the other, the structure running through its origin
+    for sa, sb in (rng.sample(pairs, min(len(pairs), 40)) if q else pairs):
+        mB = members[sb["name"]]
+        rot = gen.rotate(mB, len(mB) - rng.randrange(3, 9))
+        histories.append([(sa, rot, True, True, "plain"), (sb, rot, True, True, "plain")])
+    # user part classes that share enzyme AND signature, one a module type and one a vector type (mirror-image structures)
+    for espec, G in tc.geometries():
+        sig = [tc.rnd_signature(G.ovh, rng), tc.rnd_signature(G.ovh, rng)]
+        pm = {"part": "module", "enz": espec, "sig": sig, "name": "PM"}
+        pv = {"part": "vector", "enz": espec, "sig": sig, "name": "PV"}
+        up, down = tc.sig_instance(sig[0], rng), tc.sig_instance(sig[1], rng)
+        mM = G.module(up, gen.rnd(5, rng), down, gen.rnd(4, rng), rng)
+        mV = G.vector(down, up, gen.rnd(3, rng), gen.rnd(5, rng), rng)
+        if mM and mV:
+            histories.append([(pm, mM), (pv, mV), (pv, mM), (pm, mV)])
+            histories.append([(pv, mV), (pm, mM), (pm, mV), (pv, mM)])
     # longer random histories, also with dynamically created subclasses
     for _ in range(40 if q else 600):
         h = []
@@ -240,9 +268,10 @@ def run(tier, seed):
         for step, ev in zip(h, evs):
             cspec, seq = step[0], step[1]
             circ = step[2] if len(step) > 2 else True
-            key = (cspec.get("name") or repr(sorted(cspec.items(), key=str)), seq, circ)
+            plain = len(step) > 4 and step[4] == "plain"
+            key = (cspec.get("name") or repr(sorted(cspec.items(), key=str)), seq, circ, plain)
             if key not in base:
-                base[key] = fresh_answer(cspec, seq, circ)
+                base[key] = fresh_answer(cspec, seq, circ, plain)
             ev["fresh"] = base[key]
         traces.append(evs)
         run.distinct.add(tuple((st[0].get("name", "?"), st[1], len(st) < 3 or st[2], len(st) > 3 and st[3]) for st in h))
@@ -280,6 +309,6 @@ def replay_case(rec):
         steps = [tuple(st) for st in r["steps"]]
         evs = run_history(steps)
         for st, ev in zip(steps, evs):
-            ev["fresh"] = fresh_answer(st[0], st[1], st[2] if len(st) > 2 else True)
+            ev["fresh"] = fresh_answer(st[0], st[1], st[2] if len(st) > 2 else True, len(st) > 4 and st[4] == "plain")
         return evs
     return generic_replay(rec, ex)
